@@ -340,6 +340,9 @@ class ReaderTranslator:
                     and not all(isinstance(x, (ast.Raise, ast.Return)) for x in s.body):
                 a, _ra = self.block(s.body[:-1], fi, env, depth)
                 b, rb = self.block(stmts[i + 1:], fi, env, depth)
+                if a == b:
+                    out.extend(a)   # both ways of continuing read/write the same: the test is not format
+                    return out, rb
                 ttoks, tv = self.value(s.test, fi, env, depth)
                 out.extend(ttoks + [("ALT", tv, a, b)])
                 return out, rb
